@@ -171,6 +171,8 @@ class Hist:
             c += ["NewTable"] * 3
         if self.tab:
             c += ["ColView", "DropTable", "ReadFpT", "ReadFpT", "RenameColumn", "Lookup", "Lookup"]
+            if len(free_s) >= 2:
+                c += ["WriteRow"] * 2
             if vecs and len(free_s) >= 2 and dead_o:
                 c += ["SetAttr"] * 2
         del live
@@ -299,6 +301,32 @@ class Hist:
             except Exception as ex:     # noqa: BLE001
                 ev["res"] = "Err:" + type(ex).__name__
             del v
+        elif act == "WriteRow":
+            t = rnd.choice(sorted(self.tab))
+            tb = self.tab[t]
+            if len(tb) == 0 or len(free_s) < len(self.cols[t]):
+                return None
+            r = rnd.randrange(len(tb))
+            xs = [rnd.choice([0, 1]) for _ in self.cols[t]]
+            ev.update(x=t, y=r + 1, vs=xs)
+            cols = [self.obj(o) for o in self.cols[t]]
+            vals = [conc(x, "float" if (c_.schema() is not None and c_.schema().kind is float) else "int") for x, c_ in zip(xs, cols)]
+            old_ids = [id(c_._underlying) for c_ in cols]
+            try:
+                if rnd.random() < 0.5:
+                    tb[r] = list(vals)
+                else:
+                    tb[r, :] = list(vals)
+                for k_, c_ in enumerate(cols):
+                    still = any(id(p._underlying) == old_ids[k_] for q, p in self.live_objs().items()) \
+                        or any(id(tp) == old_ids[k_] for tp in self.tup.values())
+                    if not still:
+                        self.sid_of.pop(old_ids[k_], None)
+                for k_, c_ in enumerate(cols):
+                    self.sid_of[id(c_._underlying)] = free_s[k_]
+            except AliasError:
+                ev["res"] = "Refused"
+            del cols
         elif act == "ReadFpV":
             o = rnd.choice(live)
             ev["x"] = o
